@@ -19,14 +19,14 @@ def plan(tier, seed):
                        dict(n=3, m=2, labels='ints', schemes='three', configs='others_fast', flags='one'),
                        dict(n=3, m=2, labels='ints', schemes='one', configs='parcons_cbc', per=6),
                        dict(n=4, m=2, labels='ints', schemes='two_t', configs='none', per=100, partition=True)],
-            'absent_enum': [dict(n=3, m=2, labels='ints', schemes='six', configs='solver'),
-                            dict(n=3, m=3, labels='ints', schemes='three', configs='parcons_solver', per=60),
+            'absent_enum': [dict(n=3, m=2, labels='ints', schemes='three', configs='solver'),
+                            dict(n=3, m=3, labels='ints', schemes='ext1', configs='parcons_solver', per=60),
                             dict(n=3, m=2, labels=alt, schemes='two', configs='solver'),
                             dict(space='ext43', labels='ints', schemes='ext', configs='parcons_solver', per=300),
                             dict(space='family7', labels='ints', schemes='ext', configs='parcons_b3', flags='one'),
                             dict(space='family7', labels='ints_rev', schemes='ext1', configs='parcons_b3', flags='one')],
-            'stub': [dict(n=3, m=2, labels='ints', schemes='six', configs='solver'),
-                     dict(n=3, m=3, labels='ints', schemes='three', configs='parcons_solver', per=60),
+            'stub': [dict(n=3, m=2, labels='ints', schemes='three', configs='solver'),
+                     dict(n=3, m=3, labels='ints', schemes='one_b', configs='parcons_solver', per=60),
                      dict(space='ext43', labels='ints_rev', schemes='ext', configs='parcons_solver', per=300)],
         }
     else:
